@@ -124,6 +124,9 @@ JOBS = {
     "cis_esmd_h2co": dict(fam="am1_esmd", mol="h2co", kind="sp"),
     "md_sh_h2co": dict(fam="am1_sh", mol="h2co", kind="md", eng="sh"),
     "cis2_h2co": dict(fam="am1_sh", mol="h2co", kind="sp"),
+    # stochastic engines started from caller-supplied velocities: run(seed=...) alone must make them reproducible
+    "md_lang_h2o_uv": dict(fam="am1_md", mol="h2o", kind="md", eng="langevin", user_vel=True),
+    "md_lang_mix_uv": dict(fam="am1_md", mol="mix", kind="md", eng="langevin", user_vel=True),
     "opt_h2o": dict(fam="am1_md", mol="h2o", kind="opt"),
     "opt_nh3": dict(fam="am1_md", mol="nh3", kind="opt"),
     "md_basic_hcn": dict(fam="am1_md", mol="hcn", kind="md", eng="basic"),
@@ -274,6 +277,10 @@ class Session:
                     md = MDm.KSA_XL_BOMD(xl_bomd_params={"k": 4, "max_rank": 2, "err_threshold": 0.0, "T_el": 1500}, **common)
                 self.drivers[key] = (md, set(sp["elements"]), sp)
             rc = j.get("remove_com")
+            if j.get("user_vel"):
+                # velocities supplied by the caller (documented); the seed then governs only the thermostat noise / hop draws
+                g = torch.Generator().manual_seed(4711)
+                mol.velocities = 0.01 * torch.randn(mol.coordinates.shape, generator=g, dtype=mol.coordinates.dtype) * (mol.species > 0).unsqueeze(-1)
             md.run(mol, steps=3, seed=11, remove_com=tuple(rc) if rc else None)
             return {"x": _np(mol.coordinates), "v": _np(mol.velocities), "Etot": _np(mol.Etot)}
         if kind == "opt":
